@@ -5,7 +5,7 @@
    status 201 are accepted only after that write succeeded, and Location must be that id. *)
 From Coq Require Import String List Bool Arith.
 From Verif Require Import Base.ListX Base.Json Base.Free Pub.Events Pub.Calls Pub.Value Pub.Util Pub.SideEffect Pub.Soc Pub.BaseActor Pub.Monitors.
-From Verif Require Import Proofs.OrderProofs Proofs.NormalizeProofs.
+From Verif Require Import Pub.Fed Pub.EffectSpec Proofs.EffectProofs Proofs.OrderProofs Proofs.NormalizeProofs Proofs.WrapProofs.
 Import ListNotations.
 Open Scope string_scope.
 Open Scope list_scope.
@@ -80,6 +80,63 @@ Example C05_normalisation_not_vacuous :
   end.
 Proof. vm_compute. split; reflexivity. Qed.
 
+(* ---- wrapping: a non-activity becomes a Create whose actor is the outbox's owner, whose object is the value itself, which
+   copies published and - as id lists - each of to / bto / cc / bcc / audience the value has, and has no other member;
+   wrapping fails exactly when an addressing entry of the value has no id ---- *)
+Theorem C05_wrap : forall o actor c, wrap_in_create o actor = Ok c ->
+  jget "type" c = Some (JStr "Create") /\
+  jget "actor" c = Some (JStr actor) /\
+  jget "object" c = Some o /\
+  jget "published" c = (if vhas o "published" then jget "published" o else None) /\
+  (forall p, In p addressing ->
+     (forall l, vhas o p = true -> elems p o = Some l ->
+        exists ids, to_ids p l = Ok ids /\ jget p c = Some (match ids with [x] => JStr x | _ => JArr (map JStr ids) end)) /\
+     (vhas o p = false \/ elems p o = None -> jget p c = None)) /\
+  (forall p ids, In p addressing -> vhas o p = true -> ids_of p o = Ok ids -> ids_of p c = ids_of p o) /\
+  (forall k, jget k c <> None -> k = "type" \/ k = "object" \/ k = "actor" \/ k = "published" \/ In k addressing).
+Proof. exact wrap_in_create_spec. Qed.
+Theorem C05_wrap_fails_iff : forall o actor,
+  (exists c, wrap_in_create o actor = Ok c) <->
+  (forall p l, In p addressing -> vhas o p = true -> elems p o = Some l -> exists ids, to_ids p l = Ok ids).
+Proof. exact wrap_in_create_ok_iff. Qed.
+
+(* ---- attribution in the Social Create: the model's create IS attribute, then normalize_recipients (C05_normalisation),
+   then the storing of every object; attribute leaves the actor property as the union of the actors and every object's
+   attributedTo, gives every object that has the attributedTo property its own entries plus every actor, and changes nothing
+   else - for every order in which Go visits its maps.  flat: no array nested directly in an array. ---- *)
+Theorem C05_create_decomposition : forall cfg perm a,
+  Soc.create cfg perm a =
+  if Fed.object_required a then fail EObjectRequired else
+  bindr (lift (attribute perm a)) (fun a2 =>
+  bindr (lift (normalize_recipients perm a2)) (fun a3 =>
+  bindr (foreach (elems0 "object" a3) (fun e =>
+            match e_type "object" e with
+            | None => panic "social create: object is not a value"
+            | Some obj => bindr (lift (get_id obj)) (fun id => with_lock_deferred id (db_unit "Create" [obj]))
+            end)) (fun _ =>
+  bindr (swrapped cfg "Create" a3) (fun _ => ok (a3, tt))))).
+Proof. exact create_attribute. Qed.
+Theorem C05_attribution : forall perm, (forall l x, In x (perm l) <-> In x l) ->
+  forall a m al a2 A, a = JObj m ->
+  elems "actor" a = Some al -> no_arrays (elems0 "actor" a) = true ->
+  no_arrays (elems0 "object" a) = true ->
+  Forall (fun e => no_arrays (elems0 "attributedTo" e) = true) (elems0 "object" a) ->
+  attribute perm a = Ok a2 -> ids_of "actor" a = Ok A ->
+  (exists A2, ids_of "actor" a2 = Ok A2 /\
+     forall x, In x A2 <-> In x A \/ exists e t ids, In e (elems0 "object" a) /\ e_type "object" e = Some t /\ vhas t "attributedTo" = true /\
+                                                   ids_of "attributedTo" t = Ok ids /\ In x ids) /\
+  Forall2 (obj_attr_rel A) (elems0 "object" a) (elems0 "object" a2) /\
+  (forall q, q <> "actor" -> q <> "object" -> jget q a2 = jget q a).
+Proof. exact attribution_unions. Qed.
+Theorem C05_attribution_no_actor : forall perm, (forall l x, In x (perm l) <-> In x l) ->
+  forall a m a2, a = JObj m -> elems "actor" a = None ->
+  no_arrays (elems0 "object" a) = true ->
+  Forall (fun e => no_arrays (elems0 "attributedTo" e) = true) (elems0 "object" a) ->
+  attribute perm a = Ok a2 ->
+  Forall2 (obj_attr_rel []) (elems0 "object" a) (elems0 "object" a2) /\
+  (forall q, q <> "object" -> jget q a2 = jget q a).
+Proof. exact attribution_no_actor. Qed.
+
 Print Assumptions C05_post_outbox.
 Print Assumptions C05_send.
 Print Assumptions C05_once.
@@ -87,3 +144,8 @@ Print Assumptions C05_deliver_after_store.
 Print Assumptions C05_front.
 Print Assumptions C05_history.
 Print Assumptions C05_normalisation.
+Print Assumptions C05_wrap.
+Print Assumptions C05_wrap_fails_iff.
+Print Assumptions C05_create_decomposition.
+Print Assumptions C05_attribution.
+Print Assumptions C05_attribution_no_actor.
